@@ -71,6 +71,8 @@ def install(ctx, repo, probes):
               "shift/print-strftime", "shift/print-strftime-fallback",
               "shift/parse-format-zone", "shift/parse-format-zone-utc",
               "shift/ctime-notation", "shift/ctime-notation-nominal-offset",
+              "shift/print-strftime-same-instant-pair",
+              "rec/last-printable-point",
               "shift/print-strftime-fallback-week-date", "diff/plain", "diff/offsets",
               "diff/as-total", "diff/negative", "diff/zero", "diff/zero-as-total",
               "diff/same-nominal-offsets-both-sides", "total/zero", "rec/forward", "rec/reverse",
@@ -562,6 +564,56 @@ def make_print_strftime(rng):
             "nontrivial": True}
 
 
+def rec_edge_cases():
+    """--max=N prints N points even when point N+1 could not be printed
+    (beyond the last / before the first year the notation can hold)"""
+    for argv, out in (
+            (["R/P1Y/0001-01-01T00:00:00Z", "--max=2"],
+             "0001-01-01T00:00:00Z\n0000-01-01T00:00:00Z\n"),
+            (["R/9998-01-01T00:00:00Z/P1Y", "--max=2"],
+             "9998-01-01T00:00:00Z\n9999-01-01T00:00:00Z\n"),
+            (["R/9998-01-01T00:00:00Z/P1Y", "--max=2", "-f", "%Y"],
+             "9998\n9999\n"),
+            (["R/9999-12-30T00:00:00Z/P1D", "--max=2"],
+             "9999-12-30T00:00:00Z\n9999-12-31T00:00:00Z\n"),
+            (["R/9999-12-31T00:00:00Z/P1D", "--max=1"],
+             "9999-12-31T00:00:00Z\n"),
+            (["R/P1D/0000-01-02T00:00:00Z", "--max=2"],
+             "0000-01-02T00:00:00Z\n0000-01-01T00:00:00Z\n")):
+        yield {"op": "run", "argv": argv, "env": {}, "local": [0, 0],
+               "expect": {"stdout": out},
+               "classes": ["rec/last-printable-point"], "nontrivial": True}
+
+
+def make_strftime_pair(rng):
+    """two command lines, one after the other in the same process: the same
+    instant written in two UTC offsets, printed with the same format (each
+    shows its own local fields)"""
+    import datetime as _dt
+    mode = "gregorian"
+    y = gen.rand_year(rng, 1000, 8999)
+    inst = gen.rand_rd(rng, mode, y, bias=0.5) * 86400 + rng.randrange(86400)
+    fmt = rng.choice(("%a %d %b %Y %H:%M", "%A %B %d %H:%M:%S",
+                      "%Y-%m-%d %H:%M:%S", "%d/%m/%y %H.%M"))
+    out = []
+    for off in rng.sample(((0, 0), (5, 30), (-8, 0), (13, 45), (-3, -30)), 2):
+        local = inst + (off[0] * 60 + off[1]) * 60
+        rd, sod = divmod(local, 86400)
+        yy, mm, dd = R.rd_to_ymd(mode, rd)
+        if not 1000 <= yy <= 8999:
+            return make_strftime_pair(rng)
+        H, M, S = sod // 3600, sod // 60 % 60, sod % 60
+        text = "%04d-%02d-%02dT%02d:%02d:%02d%s" % (
+            yy, mm, dd, H, M, S, T.enc_zone(off, "hhmm", True)
+            if off != (0, 0) else "Z")
+        expect = _dt.datetime(yy, mm, dd, H, M, S).strftime(fmt) + "\n"
+        out.append({"op": "run", "argv": [text, "--print-format=" + fmt],
+                    "env": {}, "local": [0, 0], "expect": {"stdout": expect},
+                    "classes": ["shift/print-strftime-same-instant-pair"],
+                    "nontrivial": True})
+    return out
+
+
 def divmod_off(minutes):
     sign = -1 if minutes < 0 else 1
     h, m = divmod(abs(minutes), 60)
@@ -989,7 +1041,14 @@ def run_child(ctx, case):
 def workload(ctx, repo):
     rng = ctx.rng
     if ctx.worker == 0:
+        for case in rec_edge_cases():
+            ctx.case = case
+            run_case(ctx, repo, case)
         for case in ctime_fixed_cases():
+            ctx.case = case
+            run_case(ctx, repo, case)
+    for _ in range(60 if ctx.tier == "quick" else 200):
+        for case in make_strftime_pair(rng):
             ctx.case = case
             run_case(ctx, repo, case)
     n = 2800 if ctx.tier == "quick" else 9000
